@@ -47,7 +47,7 @@ def replay_instances(ctx):
         out += [
             inst("basic-nopush-t3", push=False, maxtbl=3),
             inst("basic-push-t3", push=True, maxtbl=3),
-            inst("basic-2streams-r3", slots=2),
+            inst("basic-2streams-r3", slots=2, entries="MCEntriesSmall"),
             inst("basic-2streams-push", push=True, slots=2, reqs="MCReqs2"),
             inst("blank-t3", host="blank", maxtbl=3),
         ]
